@@ -109,6 +109,13 @@ func checkC19(c c19Case) error {
 				pristine[string(st.Wire)] = b
 			}
 			lastEnc, haveEnc = enc()
+			if taggedMapKey(st.Wire) {
+				// tag 0/1 map keys become time.Time keys, which the encoder writes untagged: they can collide
+				// with an integer key and the order of equal keys is not defined (known finding of C09):
+				// the encoding is no stand-in for the value here; the deep dump still is
+				haveEnc = false
+				stats.Class("encoding-proxy-skipped/tagged-map-key")
+			}
 			stats.Class("decode-ok")
 		case "encode":
 			out, ok := enc()
